@@ -6,6 +6,7 @@ import (
 	"encoding/json"
 	"fmt"
 	"math/big"
+	"runtime"
 	"strings"
 
 	"github.com/meshplus/bitxhub-kit/types"
@@ -32,7 +33,8 @@ type mChain struct {
 	id       string
 	admin    *Key
 	services []*mService
-	rule     string // happy | bit | fabsim
+	rule     string // happy | bit | fabsim: the master rule (observed after every block when rule operations are generated)
+	ruleAt   uint64 // height of the last block in which the observed master rule changed
 }
 
 type txMeta struct {
@@ -45,7 +47,18 @@ type txMeta struct {
 	local    bool
 	call     *methodInfo
 	callArgs string
-	target   string // governance: object or proposal id the transaction is about
+	target   string         // governance: object or proposal id the transaction is about
+	judge    *mChain        // IBTP: the chain whose master rule judges the proof
+	eth      pb.Transaction // an Ethereum-format transaction: the block carries this instead of the placeholder
+	ethLabel string         // key label of its sender
+}
+
+// blockTx is what the block carries at a position: the transaction itself, or the Ethereum-format one it stands for.
+func blockTx(tx *pb.BxhTransaction, m *txMeta) pb.Transaction {
+	if m != nil && m.eth != nil {
+		return m.eth
+	}
+	return tx
 }
 
 type pairT struct{ src, dst *mService }
@@ -75,6 +88,7 @@ type scn struct {
 	proposals    []string
 	step         int
 	inSetup      bool
+	bitAddr      string       // address of the deployed WASM bit rule ("" if not deployed)
 	relaySet     map[int]bool // validator indexes in the trust root currently stored for the other BitXHub (observed)
 	relayN       int
 	icCum        uint64      // C09: interchain transactions counted over all blocks (incl. the prologue)
@@ -118,7 +132,7 @@ func Execute(prop string, p *sim.Plan, keep bool) (res *sim.Result) {
 	defer func() {
 		if e := recover(); e != nil {
 			// a panic on the driver's own goroutine: harness trouble unless it came out of the code under test
-			res.Aborted = fmt.Sprintf("driver panic: %v", e)
+			res.Aborted = fmt.Sprintf("driver panic: %v at %s", e, panicSite())
 		}
 	}()
 	for i, pol := range cfg.Replicas {
@@ -220,12 +234,13 @@ func (s *scn) setup() {
 		if i < len(s.cfg.Rules) && s.cfg.Rules[i] != "" {
 			c.rule = s.cfg.Rules[i]
 		}
-		if c.rule == "bit" && bitAddr == "" {
+		if (c.rule == "bit" || s.cfg.RuleOps) && bitAddr == "" {
 			a := s.deployBitRule()
 			if a == nil {
 				return
 			}
 			bitAddr = a.String()
+			s.bitAddr = bitAddr
 		}
 	}
 	// register appchains
@@ -317,6 +332,15 @@ func (s *scn) setup() {
 			}
 		}
 	}
+	if s.cfg.SamePairs {
+		for _, c := range s.chains {
+			for _, sv := range c.services {
+				for _, dv := range c.services {
+					s.pairs = append(s.pairs, pairT{sv, dv})
+				}
+			}
+		}
+	}
 	s.blockNo = 0
 }
 
@@ -380,6 +404,10 @@ func (s *scn) apply(st CStep) {
 		s.applyGroup(st)
 	case "relaytrust":
 		s.applyRelayTrust(st)
+	case "ruleop":
+		s.applyRuleOp(st)
+	case "eth":
+		s.applyEth(st)
 	default:
 		s.applyExtra(st)
 	}
@@ -482,7 +510,7 @@ func (s *scn) applyIBTP(st CStep) {
 			return
 		}
 	}
-	m := &txMeta{kind: "ibtp", ibtp: ib, sender: sender, proofOK: ruleAccepts(judge.rule, proof), note: st.Kind + "/" + st.Idx}
+	m := &txMeta{kind: "ibtp", ibtp: ib, sender: sender, proofOK: ruleAccepts(judge.rule, proof), note: st.Kind + "/" + st.Idx, judge: judge}
 	if !m.proofOK {
 		m.note += "/proof-refused-by-" + judge.rule + "-rule"
 	}
@@ -537,7 +565,7 @@ func (s *scn) flush() *blockResult {
 	blk := &pb.Block{BlockHeader: &pb.BlockHeader{Version: []byte("1.0.0"), Number: h, Timestamp: int64(h) * 1_000_000_000}, Transactions: &pb.Transactions{}}
 	var ll []bool
 	for i, tx := range s.pend {
-		blk.Transactions.Transactions = append(blk.Transactions.Transactions, tx)
+		blk.Transactions.Transactions = append(blk.Transactions.Transactions, blockTx(tx, s.pendM[i]))
 		ll = append(ll, s.pendM[i].local)
 	}
 	ev := &pb.CommitEvent{Block: blk, LocalList: ll}
@@ -545,6 +573,18 @@ func (s *scn) flush() *blockResult {
 	s.pend, s.pendM = nil, nil
 	s.logf("block %d txs=%d", h, len(txs))
 	var results []*blockResult
+	if !s.inSetup && len(s.reps) == 1 {
+		for _, at := range s.cfg.RefRestart {
+			if at == s.blockNo {
+				if err := s.reps[0].restart(); err != nil {
+					s.vio("C01", "restart-failed", "", "the node cannot reopen its ledger after a clean stop at height %d: %v", s.reps[0].height, err)
+					s.res.Aborted = "restart failed: " + err.Error()
+					return nil
+				}
+				s.res.Count("fault_node_restart")
+			}
+		}
+	}
 	for _, r := range s.reps {
 		if !s.inSetup {
 			for _, at := range r.pol.RestartAt {
@@ -639,6 +679,9 @@ func (s *scn) flush() *blockResult {
 	if len(s.reps) > 1 {
 		s.prevRefDump = s.reps[0].stateDump()
 	}
+	if s.cfg.RuleOps && !s.inSetup {
+		s.observeMasterRules(h) // before the verdicts: proofs judged in a block that changed the master rule get none
+	}
 	// per-block oracles on the reference replica
 	s.bal.afterBlock(h, txs, metas, ref)
 	s.ibtp.afterBlock(h, txs, metas, ref)
@@ -648,6 +691,7 @@ func (s *scn) flush() *blockResult {
 	if s.cfg.Relay > 0 && !s.inSetup {
 		s.observeRelaySet()
 	}
+
 	if s.prop == "C09" {
 		if s.inSetup {
 			s.icCum = s.reps[0].lg.GetChainMeta().InterchainTxCount
@@ -819,4 +863,22 @@ func (s *scn) applyRelay(st CStep) {
 	}
 	pm.noteReqSubmitted(ib.Index)
 	s.add(tx, m)
+}
+
+// panicSite names the first frames below the panic (for aborted-run diagnostics).
+func panicSite() string {
+	pcs := make([]uintptr, 24)
+	n := runtime.Callers(3, pcs)
+	fr := runtime.CallersFrames(pcs[:n])
+	var out []string
+	for {
+		f, more := fr.Next()
+		if strings.Contains(f.Function, "meshplus") && !strings.Contains(f.Function, "panicSite") {
+			out = append(out, fmt.Sprintf("%s:%d", f.Function[strings.LastIndex(f.Function, "/")+1:], f.Line))
+		}
+		if !more || len(out) >= 5 {
+			break
+		}
+	}
+	return strings.Join(out, " < ")
 }
